@@ -327,12 +327,19 @@ theorem policy_bytes (file : List Nat) (pgsz mmapsz pos n : Nat) (hpg : 0 < pgsz
     (fcacheGet file pgsz mmapsz pol pos).2.take n = some ((List.range n).map fun j => fileByte file (pos + j)) :=
   fcacheGet_take file pgsz mmapsz pos n hpg hmm hm0 hin hn pol
 
-/-- At or beyond the end of the file the policies differ (`ALWAYS` refuses,
-`NEVER` delivers zeroes): the hypothesis `hin` is needed. -/
+/-- behind the end of the file every policy refuses alike (the read(2) path and the mmap path both answer
+`KDUMP_ERR_EOF`), block 0 excepted -/
+theorem policy_irrelevant_behind_eof (file : List Nat) (pgsz mmapsz pos : Nat) (h0 : 0 < pos / pgsz * pgsz)
+    (hout : file.length ≤ pos / pgsz * pgsz) (pol pol' : Policy) :
+    (fcacheGet file pgsz mmapsz pol pos).2 = (fcacheGet file pgsz mmapsz pol' pos).2 := by
+  rw [fcacheGet_refused file pgsz mmapsz pos h0 hout pol, fcacheGet_refused file pgsz mmapsz pos h0 hout pol']
+
+/-- What is left of the difference: block 0 of an empty file (`ALWAYS` refuses, `NEVER` delivers zeroes); the hypotheses
+`hin` / `h0` are needed. -/
 theorem policy_eof_counterexample :
     ∃ file pgsz mmapsz pos, (fcacheGet file pgsz mmapsz .always pos).2 = .nodata ∧
       (fcacheGet file pgsz mmapsz .never pos).2 ≠ .nodata :=
-  ⟨[1, 2], 4, 8, 4, by decide, by decide⟩
+  ⟨[], 4, 8, 1, by decide, by decide⟩
 
 /-! ### Non-vacuity -/
 example : ∃ s, hrun (E := Unit) (fun k => .ok (k + 100)) (PCache.init (V := Nat) 2)
